@@ -174,13 +174,13 @@ def run_layout(ea, arr_in, emb, cs, mk, rb, lname, acc):
     mapping = make_mapping(mk, emb)
     common = None if cs == "omit" else emb[cs]
     case = {"array": ea.tolist(), "shape": list(ea.shape), "emb": [str(e) for e in emb], "common": cs, "counts": False, "mapping": mk, "readback": rb, "layout": lname}
-    before = numpy.array(arr_in, copy=True)
+    before = numpy.array(arr_in, copy=True) if isinstance(arr_in, numpy.ndarray) else numpy.array(arr_in)
     try:
         idx = iindex.from_array(arr_in, common=common, mapping=dict(mapping) if mapping else None)
     except Exception as e:  # noqa
         acc.violation("from_array:raised", case, repr(e))
         return True
-    if not numpy.array_equal(before, arr_in):
+    if not numpy.array_equal(before, numpy.asarray(arr_in)):
         acc.violation("from_array:mutated-input", case, "input array changed")
     expected = ea if mapping is None else numpy.vectorize(mapping.get, otypes=[object])(ea)
     exp_list = numpy.asarray(expected).tolist()
@@ -349,6 +349,18 @@ def run_block(family, p, acc):
                     variants.append(("negative-stride", ea[::-1].copy()[::-1]))
                 if min(int(x) for x in ea.flat) >= 0:
                     variants.append(("uint64", ea.astype(numpy.uint64)))
+                # other legal representations of the same values: nested Python lists / tuples (from_array calls asarray), a read-only
+                # array, and every narrower integer dtype that holds the values
+                variants.append(("list", ea.tolist()))
+                variants.append(("tuple", tuple(map(tuple, ea.tolist())) if ea.ndim == 2 else tuple(ea.tolist())))
+                ro = ea.copy()
+                ro.flags.writeable = False
+                variants.append(("read-only", ro))
+                lo, hi = min(int(x) for x in ea.flat), max(int(x) for x in ea.flat)
+                for dt in (numpy.int8, numpy.uint8, numpy.int16, numpy.uint16, numpy.int32, numpy.uint32):
+                    ii = numpy.iinfo(dt)
+                    if ii.min <= lo and hi <= ii.max and ii.min <= min(emb[:4]) and max(emb[:4]) <= ii.max:
+                        variants.append((numpy.dtype(dt).name, ea.astype(dt)))
                 for lname, arr_in in variants:
                     for cs, mk, rb in (("omit", "none", "default"), (1, "many1", "int64"), (3, "perm", "map")):
                         if run_layout(ea, arr_in, emb, cs, mk, rb, lname, acc):
